@@ -95,6 +95,23 @@ def pure_leaves(F):
     return sorted(cand), par, defs
 
 
+def rejections_rule(ctx, rep, rule):
+    """Shared with C02 / C08: the reconstruction path constructs no more error results of its own than the reference tree
+    (reference/format_surface.json, stream.rejections).  A new one — a plausibility check on a decoded count, a sanity limit —
+    refuses corrections the analysis produced for a stream it accepted."""
+    from .. import err as _err
+    F = ctx.lib
+    ref = json.load(open(REF)) if os.path.exists(REF) else None
+    if not ref or "rejections" not in ref.get("stream", {}):
+        rep.missing(rule, "reference/format_surface.json: stream.rejections")
+        return
+    leaves, par, defs = pure_leaves(F)
+    per = {d.replace(P, ""): len(_err.own_errors(F, F.bodies[d])) for d in defs if d in F.bodies}
+    cur = sum(per.values())
+    rep.add(rule, "no-new-rejection-on-the-reconstruction-path", cur <= ref["stream"]["rejections"], "",
+            "%d error results constructed by reconstruction-path functions (reference %d): %s" % (cur, ref["stream"]["rejections"], {k: v for k, v in sorted(per.items()) if v}))
+
+
 def compute_surface(F):
     S = {"container": {}, "stream": {}}
     # ---- versions ----------------------------------------------------------------------------------
@@ -169,6 +186,9 @@ def compute_surface(F):
     S["stream"]["arith"] = arith(F, sig_fns)
     S["stream"]["skeleton"] = skeleton(F, sig_fns)
     S["stream"]["literals"] = literals(F, sig_fns)
+    # ---- what the reader of stored data refuses ---------------------------------------------------------------
+    from .. import err as _err
+    S["stream"]["rejections"] = sum(len(_err.own_errors(F, F.bodies[d])) for d in defs if d in F.bodies)
     # ---- closed forms -------------------------------------------------------------------------------
     for d in leaves:
         try:
@@ -606,6 +626,11 @@ def run(ctx, rep):
                     gone = {x: rv[x] for x in rv if x not in cv}
                     new = {x: cv[x] for x in cv if x not in rv}
                     rv, cv = "values no longer referenced: %s" % gone, "new values: %s" % new
+            if k == "rejections" and isinstance(rv, int) and isinstance(cv, int):
+                # a rejection that disappears refuses nothing that was accepted; a new one may refuse stored data
+                same = cv <= rv
+                if not same:
+                    rv, cv = "%d error results constructed on the reconstruction path" % rv, "%d: a new way to refuse data the reference build wrote (or an analysis result it accepted)" % cv
             if same:
                 rep.add(rule, k, True, "", "equals the reference")
             elif announced:
